@@ -265,8 +265,10 @@ impl GcVector {
         Self(Gc::new(GcCell::new(Vec::with_capacity(capacity))))
     }
 
-    pub fn addr(&self) -> *const Primitive {
-        self.0.borrow().as_ptr()
+    /// The address that identifies this list: that of the shared cell, not of the element storage
+    /// (an empty list has no storage of its own, and the storage moves when the list grows).
+    pub fn addr(&self) -> *const GcCell<Vec<Primitive>> {
+        &*self.0 as *const _
     }
 }
 
